@@ -85,6 +85,10 @@ class VecEv:
         if isinstance(e, ast.BinOp):
             a, b = self.ev(e.left), self.ev(e.right)
             return self.arith(e.op, a, b, e)
+        if isinstance(e, ast.Compare):
+            # a boolean mask: only usable as a mask / np.any() argument,
+            # decided by the scenario hook
+            return Rat.atom('mask:' + ' '.join(unparse(e).split()))
         if isinstance(e, ast.Subscript):
             s = unparse(e.slice)
             base = self.ev(e.value)
